@@ -456,7 +456,7 @@ def run(ctx):
                         mut = mutates(tname, ti, mname, ai)
                         if ti > 0 and not mut:
                             continue
-                        if quick and not mut and (idx + ai) % 4 != ctx.seed % 4:
+                        if quick and not mut and (idx + ai) % 6 != ctx.seed % 6:
                             continue
                         if quick and ti > 0 and (idx + ai) % 3 != ctx.seed % 3:
                             continue
@@ -497,11 +497,9 @@ def run(ctx):
         if not ctx.mine(i):
             continue
         for fi, form in enumerate(forms):
-            if form == "loop" and quick:
+            if quick and form != ("print", "list")[(i // ctx.nshards + ctx.seed) % 2]:
                 continue
             for is_async in (False, True):
-                if quick and is_async != (form == "list"):
-                    continue
                 filter_case(ctx, {"kind": "filter", "filter": name, "input": inp,
                                   "argtext": argtext, "argkey": argkey, "form": form,
                                   "async": is_async})
